@@ -2033,3 +2033,277 @@ Proof.
   split; [apply quiescentb_sound; vm_compute; reflexivity|].
   eexists. split; [vm_compute; reflexivity|]. cbn. repeat split; vm_compute; reflexivity.
 Qed.
+
+(** ** The sync marker: exactly one, after the snapshot (first for updates_only) *)
+
+Inductive tag := TUpd (p : path) | TSync | TOther.
+
+Definition tag_resp (r : resp) : tag :=
+  match r with RUpd p _ _ _ => TUpd p | RSync => TSync | RDel _ _ => TOther end.
+Definition tag_item (st : state) (it : item) : tag :=
+  match it with
+  | ILeaf l => match leaf_path st l with Some p => TUpd p | None => TOther end
+  | ISync => TSync
+  | IDel _ => TOther
+  end.
+
+(** what the subscriber has been or will be sent, in order: responses on the
+    wire, the response in Send, the item in the sender's hand, the queue *)
+Definition trace (st : state) (sb : sub) : list tag :=
+  map tag_resp (so sb) ++ map (tag_item st) (iq sb).
+
+Definition snap_in (st : state) (sb : sub) (tr : list tag) (l : nat) : Prop :=
+  exists p, leaf_path st l = Some p /\ In (TUpd p) tr.
+
+Record YInv (st : state) (sb : sub) : Prop := {
+  y_excl : s_infl sb <> None -> s_out sb = None;
+  y_wf : forall l, In (ILeaf l) (iq sb) -> leaf_path st l <> None;
+  y_uo : s_uo sb = true ->
+         (match s_pc sb with SReg _ | SDone => True | _ => False end) /\
+         exists post, trace st sb = TSync :: post /\ ~ In TSync post;
+  y_snap : s_uo sb = false ->
+         match s_pc sb with
+         | SDone => exists pre post, trace st sb = pre ++ TSync :: post /\ ~ In TSync pre /\ ~ In TSync post /\
+                      forall l, In l (s_snap sb) -> snap_in st sb pre l
+         | SWalk _ todo => ~ In TSync (trace st sb) /\
+                      forall l, In l (s_snap sb) -> In l todo \/ snap_in st sb (trace st sb) l
+         | _ => ~ In TSync (trace st sb) /\ forall l, In l (s_snap sb) -> snap_in st sb (trace st sb) l
+         end;
+}.
+
+(** a step that leaves program counter and snapshot alone and appends [e]
+    (no sync marker in it) to the trace *)
+Lemma YInv_append st st' sb sb' e :
+  s_uo sb' = s_uo sb -> s_pc sb' = s_pc sb -> s_snap sb' = s_snap sb ->
+  trace st' sb' = trace st sb ++ e -> ~ In TSync e ->
+  (forall l p, leaf_path st l = Some p -> leaf_path st' l = Some p) ->
+  (forall l, In (ILeaf l) (iq sb') -> leaf_path st' l <> None) ->
+  (s_infl sb' <> None -> s_out sb' = None) ->
+  YInv st sb -> YInv st' sb'.
+Proof.
+  intros Eu Ep Es Et He Hext Hwf Hex [Y0 Y1 Y2 Y3].
+  assert (SI : forall tr l, snap_in st sb tr l -> snap_in st' sb' (tr ++ e) l).
+  { intros tr l (p & Hp & Hin). exists p. split; auto. apply in_app_iff. auto. }
+  assert (SI' : forall tr l, snap_in st sb tr l -> snap_in st' sb' tr l).
+  { intros tr l (p & Hp & Hin). exists p. split; auto. }
+  constructor; auto.
+  - rewrite Eu, Ep, Et. intros H. destruct (Y2 H) as (A & post & B & C). split; auto.
+    exists (post ++ e). rewrite B. split; auto. rewrite in_app_iff. tauto.
+  - rewrite Eu, Ep, Es, Et. intros H. specialize (Y3 H). destruct (s_pc sb).
+    + destruct Y3 as [A B]. split; [rewrite in_app_iff; tauto|]. intros l Hl. apply SI. auto.
+    + destruct Y3 as [A B]. split; [rewrite in_app_iff; tauto|]. intros l Hl. apply SI. auto.
+    + destruct Y3 as [A B]. split; [rewrite in_app_iff; tauto|]. intros l Hl. destruct (B l Hl); auto.
+    + destruct Y3 as (pre & post & A & B & C & D). exists pre, (post ++ e). rewrite A, <- app_assoc. cbn.
+      split; auto. split; auto. split; [rewrite in_app_iff; tauto|]. intros l Hl. apply SI'. auto.
+Qed.
+
+Lemma trace_insert st sb it :
+  exists e, trace st (set_queue sb (q_insert it (s_queue sb))) = trace st sb ++ e /\
+            (e = [] /\ In it (iq sb) \/ e = [tag_item st it]).
+Proof.
+  unfold trace. change (so (set_queue sb (q_insert it (s_queue sb)))) with (so sb). rewrite iq_insert.
+  destruct (in_dec item_eq_dec it (qitems (s_queue sb))) as [H|H].
+  - exists []. rewrite app_nil_r. split; auto. left. split; auto. unfold iq. apply in_app_iff. auto.
+  - exists [tag_item st it]. rewrite map_app, app_assoc. split; auto.
+Qed.
+
+Lemma In_tag_item st it l : In it l -> In (tag_item st it) (map (tag_item st) l).
+Proof. apply in_map. Qed.
+
+Definition YAll (st : state) : Prop :=
+  forall i sb, nth_error (st_subs st) i = Some sb -> s_end sb = false -> YInv st sb.
+
+Lemma YAll_sub_step st s sb sb' :
+  YAll st -> nth_error (st_subs st) s = Some sb ->
+  (s_end sb' = false -> s_end sb = false) ->
+  (YInv st sb -> s_end sb' = false -> YInv st sb') ->
+  YAll (set_subs st (upd_nth s (fun _ => sb') (st_subs st))).
+Proof.
+  intros Y Hs He Hstep i sbi Hi Hend. cbn in Hi.
+  assert (F : forall x, YInv st x -> YInv (set_subs st (upd_nth s (fun _ => sb') (st_subs st))) x).
+  { intros x [A0 A B C]. constructor; auto. }
+  apply nth_error_upd_nth_inv in Hi as [(-> & x & Hx & ->)|(Hne & Hi)].
+  - apply F. apply Hstep; auto. eapply Y; eauto.
+  - apply F. eapply Y; eauto.
+Qed.
+
+Lemma trace_ext st st' sb :
+  (forall l p, leaf_path st l = Some p -> leaf_path st' l = Some p) ->
+  (forall l, In (ILeaf l) (iq sb) -> leaf_path st l <> None) ->
+  trace st' sb = trace st sb.
+Proof.
+  intros E W. unfold trace. f_equal. apply map_ext_in. intros [l|k|] Hin; cbn; auto.
+  destruct (leaf_path st l) as [p|] eqn:X; [rewrite (E _ _ X); reflexivity|]. exfalso. eapply W; eauto.
+Qed.
+
+Lemma step_YAll h st lb st' : GInv st -> step h st lb = Some st' -> YAll st -> YAll st'.
+Proof.
+  intros G Hstep Y. destruct lb as [w o|w|s|s|s|s p0|s|s|s|s|s|s]; cbn in Hstep.
+  - (* LWrite: the stores only grow *)
+    destruct (nth_error (st_feeds st) w) as [[|]|] eqn:Hw; try discriminate.
+    destruct (h_owt h && in_flight_other st w (wop_target o)); [discriminate|].
+    destruct (write h st w o) as [[st1 r]|] eqn:Hwr; [|discriminate]. cbn in Hstep. inversion Hstep; subst st1.
+    assert (E : forall l p, leaf_path st l = Some p -> leaf_path st' l = Some p).
+    { intros l p Hp. revert Hwr. destruct o as [p1 v ts|d ts order|d]; cbn.
+      - destruct (negb _); [discriminate|]. destruct (h_agree h && negb _); [discriminate|].
+        destruct (tlookup p1 (st_tree st)) as [l1|].
+        + destruct (leaf_cont st l1) as [[v0 ts0]|]; [|discriminate].
+          destruct (ts <? ts0); [intros [= <- _]; auto|].
+          destruct ((ts =? ts0) && (v =? v0)); intros [= <- _]; auto.
+          unfold leaf_path. cbn. rewrite leaf_path_upd. exact Hp.
+        + destruct (conflicts st p1); intros [= <- _]; auto.
+          unfold leaf_path. cbn. apply option_map_nth_app. exact Hp.
+      - destruct (negb _); [discriminate|]. destruct (tree_locked _ _); [discriminate|]. intros [= <- _]; auto.
+      - destruct (negb _); [discriminate|]. destruct (tree_locked _ _); [discriminate|]. intros [= <- _]; auto. }
+    intros i sb Hi He. rewrite (write_subs _ _ _ _ _ _ Hwr) in Hi. specialize (Y _ _ Hi He).
+    apply (YInv_append st st' sb sb []); auto.
+    + rewrite app_nil_r. apply trace_ext; auto. apply (y_wf _ _ Y).
+    + intros l Hl X. destruct (leaf_path st l) eqn:Z; [rewrite (E _ _ Z) in X; discriminate|]. eapply (y_wf _ _ Y); eauto.
+    + apply (y_excl _ _ Y).
+  - (* LFeed *)
+    destruct (nth_error (st_feeds st) w) as [[|it rest]|] eqn:Hw; try discriminate.
+    inversion Hstep; subst st'. clear Hstep. intros i sb' Hi He. cbn in Hi. rewrite nth_error_map in Hi.
+    destruct (nth_error (st_subs st) i) as [sb|] eqn:Hsb; [|discriminate]. inversion Hi; subst sb'.
+    rewrite deliver_end in He. specialize (Y _ _ Hsb He).
+    assert (Hf : In (it :: rest) (st_feeds st)) by (eapply nth_error_In; eauto).
+    destruct (g_feed_wf _ G _ _ Hf (or_introl eq_refl)) as (Hns & pat & Hpat & _).
+    set (st' := mkState _ _ _ _ _).
+    assert (TR : forall x, trace st' x = trace st x) by reflexivity.
+    unfold deliver. rewrite Hpat. rewrite He at 1. rewrite q_insert_n_mult.
+    destruct (existsb _ (regq sb)).
+    + fold (set_queue sb (q_insert it (s_queue sb))).
+      destruct (trace_insert st sb it) as (e & Et & He').
+      apply (YInv_append st st' sb _ e); auto.
+      * destruct He' as [[-> _]| ->]; [intros []|]. intros [H|[]]. destruct it; cbn in H; try discriminate; try congruence.
+        destruct (leaf_path st l); discriminate.
+      * intros l Hl. apply In_iq_insert in Hl as [Hl|Hl]; [apply (y_wf _ _ Y); auto|].
+        subst it. cbn in Hpat. change (leaf_path st' l) with (leaf_path st l). congruence.
+      * apply (y_excl _ _ Y).
+    + assert (Esb : mkSub (s_qs sb) (s_uo sb) (s_pc sb) (s_queue sb) (s_infl sb) (s_out sb) (s_sent sb) (s_snap sb) (s_end sb) = sb)
+        by (destruct sb; reflexivity).
+      rewrite Esb. apply (YInv_append st st' sb sb []); auto.
+      * rewrite app_nil_r. reflexivity.
+      * apply (y_wf _ _ Y).
+      * apply (y_excl _ _ Y).
+  - (* LReg *)
+    apply with_sub_inv in Hstep as (sb & sb' & Hsb & Hf & ->).
+    destruct (s_pc sb) as [k| | |] eqn:Hpc; try discriminate.
+    match type of Hf with (if ?c then _ else _) = _ => destruct c; [|discriminate] end. inversion Hf; subst sb'.
+    eapply YAll_sub_step; eauto. intros [Y0 Y1 Y2 Y3] _. constructor; auto; cbn; rewrite Hpc in *; auto.
+  - (* LRegDone *)
+    apply with_sub_inv in Hstep as (sb & sb' & Hsb & Hf & ->).
+    destruct (s_pc sb) as [k| | |] eqn:Hpc; try discriminate.
+    destruct (k =? List.length (s_qs sb))%nat; [|discriminate]. inversion Hf; subst sb'.
+    eapply YAll_sub_step; eauto. intros [Y0 Y1 Y2 Y3] _. constructor; auto; cbn; rewrite Hpc in *.
+    + intros Hu. rewrite Hu. destruct (Y2 Hu) as [_ B]. split; auto.
+    + intros Hu. rewrite Hu. apply (Y3 Hu).
+  - (* LWalkBegin *)
+    apply with_sub_inv in Hstep as (sb & sb' & Hsb & Hf & ->).
+    destruct (s_pc sb) as [|k| |] eqn:Hpc; try discriminate.
+    destruct (nth_error (s_qs sb) k) as [q|] eqn:Hq; [|discriminate]. inversion Hf; subst sb'.
+    eapply YAll_sub_step; eauto. intros [Y0 Y1 Y2 Y3] _. constructor; auto; cbn; rewrite Hpc in *.
+    + intros Hu. destruct (Y2 Hu) as [[] _].
+    + intros Hu. destruct (Y3 Hu) as [A B]. split; auto. intros l Hl. apply in_app_iff in Hl as [Hl|Hl]; auto.
+  - (* LVisit *)
+    apply with_sub_inv in Hstep as (sb & sb' & Hsb & Hf & ->).
+    destruct (s_pc sb) as [| |k todo|] eqn:Hpc; try discriminate.
+    destruct (nth_error (s_qs sb) k) as [q|] eqn:Hq; [|discriminate].
+    destruct (tlookup p0 (st_tree st)) as [l0|] eqn:Hl0; [|discriminate].
+    destruct (covers q p0) eqn:Hc0; [|discriminate]. inversion Hf; subst sb'.
+    eapply YAll_sub_step; eauto. cbn. intros [Y0 Y1 Y2 Y3] He. rewrite He.
+    assert (Hp0 := tlookup_leaf _ _ _ G Hl0).
+    destruct (trace_insert st sb (ILeaf l0)) as (e & Et & He').
+    set (sb1 := set_queue sb (q_insert (ILeaf l0) (s_queue sb))).
+    assert (Hin0 : In (TUpd p0) (trace st sb1)).
+    { unfold sb1. rewrite Et. apply in_app_iff. destruct He' as [[-> Hin]| ->].
+      - left. unfold trace. apply in_app_iff. right.
+        replace (TUpd p0) with (tag_item st (ILeaf l0)) by (cbn; rewrite Hp0; reflexivity). apply in_map. exact Hin.
+      - right. left. cbn. rewrite Hp0. reflexivity. }
+    constructor.
+    + exact Y0.
+    + intros l Hl. change (In (ILeaf l) (iq sb1)) in Hl. apply In_iq_insert in Hl as [Hl|[= ->]]; auto. congruence.
+    + cbn. intros Hu. rewrite Hpc in Y2. destruct (Y2 Hu) as [[] _].
+    + cbn. intros Hu. rewrite Hpc in Y3. destruct (Y3 Hu) as [A B].
+      change (trace st _) with (trace st sb1). unfold sb1 at 1. rewrite Et. split.
+      * rewrite in_app_iff. intros [H|H]; auto. destruct He' as [[-> _]| ->]; [contradiction|].
+        destruct H as [H|[]]. cbn in H. rewrite Hp0 in H. discriminate.
+      * intros l Hl. destruct (Nat.eq_dec l l0) as [->|Hne].
+        -- right. exists p0. split; auto. rewrite <- Et. exact Hin0.
+        -- destruct (B l Hl) as [Hin|(p & Hp & Hin)].
+           ++ left. apply filter_In. split; auto. apply negb_true_iff, Nat.eqb_neq. exact Hne.
+           ++ right. exists p. split; auto. apply in_app_iff. auto.
+  - (* LWalkEnd *)
+    apply with_sub_inv in Hstep as (sb & sb' & Hsb & Hf & ->).
+    destruct (s_pc sb) as [| |k [|]|] eqn:Hpc; try discriminate. inversion Hf; subst sb'.
+    eapply YAll_sub_step; eauto. intros [Y0 Y1 Y2 Y3] _. constructor; auto; cbn; rewrite Hpc in *.
+    + intros Hu. destruct (Y2 Hu) as [[] _].
+    + intros Hu. destruct (Y3 Hu) as [A B]. split; auto. intros l Hl. destruct (B l Hl) as [[]|]; auto.
+  - (* LSync *)
+    apply with_sub_inv in Hstep as (sb & sb' & Hsb & Hf & ->).
+    destruct (s_pc sb) as [|k| |] eqn:Hpc; try discriminate.
+    destruct (k =? List.length (s_qs sb))%nat; [|discriminate]. inversion Hf; subst sb'.
+    eapply YAll_sub_step; eauto. cbn. intros [Y0 Y1 Y2 Y3] He. rewrite He.
+    destruct (trace_insert st sb ISync) as (e & Et & He').
+    set (sb1 := set_queue sb (q_insert ISync (s_queue sb))).
+    constructor.
+    + exact Y0.
+    + intros l Hl. change (In (ILeaf l) (iq sb1)) in Hl. apply In_iq_insert in Hl as [Hl|Hl]; auto. discriminate.
+    + cbn. intros Hu. rewrite Hpc in Y2. destruct (Y2 Hu) as [[] _].
+    + cbn. intros Hu. rewrite Hpc in Y3. destruct (Y3 Hu) as [A B].
+      change (trace st _) with (trace st sb1). unfold sb1. rewrite Et.
+      destruct He' as [[-> Hin]| ->].
+      * exfalso. apply A. unfold trace. apply in_app_iff. right. apply (In_tag_item st ISync). exact Hin.
+      * exists (trace st sb), []. split; auto. split; auto. split; [intros []|].
+        intros l Hl. destruct (B l Hl) as (p & Hp & Hin). exists p. auto.
+  - (* LDeq *)
+    apply with_sub_inv in Hstep as (sb & sb' & Hsb & Hf & ->).
+    destruct (is_registered sb && negb (s_end sb)) eqn:Hg; [|discriminate].
+    apply andb_true_iff in Hg as [_ Hg]. apply negb_true_iff in Hg.
+    destruct (s_infl sb) eqn:Hi; [discriminate|]. destruct (s_out sb) eqn:Ho; [discriminate|].
+    destruct (s_queue sb) as [|x q'] eqn:Hq; [discriminate|]. inversion Hf; subst sb'.
+    eapply YAll_sub_step; eauto. intros Y0 _.
+    set (sb' := mkSub _ _ _ _ _ _ _ _ _).
+    assert (Eiq : iq sb' = iq sb) by (unfold iq, infl_list, sb'; cbn; rewrite Hi, Hq; destruct x; reflexivity).
+    assert (Eso : so sb' = so sb) by (unfold so, out_list, sb'; cbn; rewrite Ho; reflexivity).
+    apply (YInv_append st st sb sb' []); auto.
+    + unfold trace. rewrite Eiq, Eso, app_nil_r. reflexivity.
+    + rewrite Eiq. apply (y_wf _ _ Y0).
+  - (* LRead *)
+    apply with_sub_inv in Hstep as (sb & sb' & Hsb & Hf & ->).
+    destruct (s_end sb) eqn:He; [discriminate|].
+    destruct (s_infl sb) as [[it d]|] eqn:Hi; [|discriminate].
+    destruct (build st it d) as [r|] eqn:Hb; [|discriminate]. inversion Hf; subst sb'.
+    eapply YAll_sub_step; eauto. intros Y0 _.
+    set (sb' := mkSub _ _ _ _ _ _ _ _ _).
+    assert (Eiq : iq sb = it :: iq sb') by (unfold iq, infl_list, sb'; cbn; rewrite Hi; reflexivity).
+    assert (Etag : tag_resp r = tag_item st it).
+    { destruct it as [l|k|]; cbn in Hb.
+      - unfold tag_item, leaf_path. destruct (nth_error (st_leaves st) l) as [[p [v ts]]|]; [|discriminate]. inversion Hb; reflexivity.
+      - destruct (nth_error (st_dels st) k) as [[d' ts]|]; [|discriminate]. inversion Hb; reflexivity.
+      - inversion Hb; reflexivity. }
+    apply (YInv_append st st sb sb' []); auto.
+    + rewrite app_nil_r. unfold trace. rewrite Eiq.
+      assert (Ho : s_out sb = None) by (apply (y_excl _ _ Y0); congruence).
+      unfold so, out_list. cbn. rewrite Ho, app_nil_r, map_app. cbn. rewrite Etag, <- app_assoc. reflexivity.
+    + intros l Hl. apply (y_wf _ _ Y0). rewrite Eiq. right. exact Hl.
+    + intros H. exfalso. apply H. reflexivity.
+  - (* LSent *)
+    apply with_sub_inv in Hstep as (sb & sb' & Hsb & Hf & ->).
+    destruct (s_end sb) eqn:He; [discriminate|].
+    destruct (s_out sb) as [r|] eqn:Ho; [|discriminate]. inversion Hf; subst sb'.
+    eapply YAll_sub_step; eauto. intros Y0 _.
+    set (sb' := mkSub _ _ _ _ _ _ _ _ _).
+    assert (Hi : s_infl sb = None).
+    { destruct (s_infl sb) eqn:X; auto. assert (s_out sb = None) by (apply (y_excl _ _ Y0); congruence). congruence. }
+    assert (Eiq : iq sb' = iq sb) by (unfold iq, infl_list, sb'; cbn; rewrite Hi; reflexivity).
+    assert (Eso : so sb' = so sb) by (unfold so, out_list, sb'; cbn; rewrite Ho, app_nil_r; reflexivity).
+    apply (YInv_append st st sb sb' []); auto.
+    + unfold trace. rewrite Eiq, Eso, app_nil_r. reflexivity.
+    + rewrite Eiq. apply (y_wf _ _ Y0).
+    + intros H. exfalso. apply H. reflexivity.
+  - (* LTimeout *)
+    apply with_sub_inv in Hstep as (sb & sb' & Hsb & Hf & ->).
+    destruct (s_end sb) eqn:He; [discriminate|].
+    destruct (s_out sb) as [[]|] eqn:Ho; try discriminate; inversion Hf; subst sb';
+      (eapply YAll_sub_step; eauto; cbn; discriminate).
+Qed.
